@@ -31,6 +31,7 @@ RULE = (
     'those of the text, the reported encoding must equal the @charset rule, the serialisation must reparse to the same rules. Non-trivial: two sources of encoding '
     'information disagree, the chain has depth >= 2, or the content has a character outside the target encoding; distinct '
     'by row / (DOM, encoding).'
+    ' boms also: an import without information of its own inherits the encoding of a referring sheet that was parsed from bytes with a UTF-16/32 byte order mark.'
 )
 ASSUMPTIONS = [
     'encoding names are compared through codecs.lookup; utf-8-sig and utf-8 count as equal',
